@@ -29,11 +29,21 @@ def one(rec, hub, seed, tier, i):
     with dsm.quiet():
         if which == 0:
             cfg = dsm.make_config(fd, rng, tier, wide_p=0.008)
+            if i % 5 == 1:
+                cfg["param_form"], cfg["handed"] = "ndarray", []
             s = dsm.make_stock(fd, cfg, "InflowDrivenDSM", inflow=dsm.driver_values(rng, cfg["shape"], str(rng.choice(["positive", "positive", "scaled:positive", "collapse"]))))
+            for buf in cfg.get("handed") or []:
+                # the caller refills the buffers it handed the parameters over in (for the next model) before the stock is computed:
+                # the parameters belong to the model from the hand-over on
+                buf[...] = buf * 3.0 + 1.0
             s.compute()
         elif which == 1:
             cfg = dsm.make_config(fd, rng, tier, wide_p=0.008)
+            if i % 5 == 1:
+                cfg["param_form"], cfg["handed"] = "ndarray", []
             s = dsm.make_stock(fd, cfg, "InflowDrivenDSM", inflow=dsm.driver_values(rng, cfg["shape"], str(rng.choice(["positive", "mixed"]))))
+            for buf in cfg.get("handed") or []:
+                buf[...] = buf * 3.0 + 1.0
             s.compute()
         else:
             cfg, lm = dsm.make_solvable(fd, rng, tier)
